@@ -576,6 +576,25 @@ def normalise(t):
                     return ("lift", t[1])
     if h == "try" and _is(t[1], "lift"):
         return ("try", t[1])
+    if h == "Ok" and len(t) == 2 and _is(t[1], "try") and _is(t[1][1], "lift"):
+        return t[1][1]
+    if h == "Ok" and len(t) == 2 and _is(t[1], "if") and len(t[1]) == 4:
+        c = t[1]
+        return ("if", c[1], normalise(("Ok", c[2])), normalise(("Ok", c[3])))
+    return t
+
+
+def term_size(t):
+    if isinstance(t, tuple):
+        return 1 + sum(term_size(x) for x in t)
+    return 1
+
+
+def subst_params(t, mapping):
+    if isinstance(t, tuple):
+        if len(t) == 2 and t[0] == "param" and t[1] in mapping:
+            return mapping[t[1]]
+        return tuple(subst_params(x, mapping) for x in t)
     return t
 
 
